@@ -2,6 +2,7 @@ import Req.Driver.Proto
 import Req.Client.Scope
 import Req.Client.Heap
 import Req.Client.ShareJudge
+import Req.Client.ValuesHeap
 /-! Driver lanes of C19.
 
 `c19prog <program>` — run an API program on the value model (`Scope.runScope`) and print the
@@ -171,7 +172,46 @@ def laneRel : List String → String
     | _, _ => "bad-op"
   | _ => "bad-op"
 
+/-! `c19vals <next> <layout> <ops>` — the judge of lane `vals` (maps of slices after `Clone`).
+`layout`: entries `key:arr:off:len:cap:values` joined by `,` — the slice header of every key of every
+observed map (keys of different maps / clients are numbered apart) as found on the REAL heap, with the
+values it reads; `next` = number of arrays. `ops`: `a<key>:<values>` append, `s<key>:<values>` set,
+`d<key>` delete, joined by `;`. Answer: `sep=<ValuesHeap.sepB>;` and the multimap the value model
+ends with (keys sorted). By `values_heap_refines` a separated layout behaves exactly like that. -/
+
+def parseEntry (s : String) : Option ((Nat × Req.ValuesHeap.Sl) × List Nat) :=
+  match s.splitOn ":" with
+  | [k, a, o, l, c, vs] => do
+    pure ((← k.toNat?, ⟨← a.toNat?, ← o.toNat?, ← l.toNat?, ← c.toNat?⟩), ← natList vs)
+  | _ => none
+
+def parseVOp (s : String) : Option Req.ValuesHeap.VOp :=
+  match s.toList with
+  | 'a' :: rest =>
+    match (String.ofList rest).splitOn ":" with
+    | [k, vs] => do pure (.add (← k.toNat?) (← natList vs))
+    | _ => none
+  | 's' :: rest =>
+    match (String.ofList rest).splitOn ":" with
+    | [k, vs] => do pure (.set (← k.toNat?) (← natList vs))
+    | _ => none
+  | 'd' :: rest => (String.ofList rest).toNat?.map Req.ValuesHeap.VOp.del
+  | _ => none
+
+def laneVals : List String → String
+  | [next, layout, ops] =>
+    match next.toNat?, (if layout == "_" then some [] else (layout.splitOn ",").mapM parseEntry),
+          (if ops == "_" then some [] else (ops.splitOn ";").mapM parseVOp) with
+    | some n, some ents, some vops =>
+      let m : Req.ValuesHeap.MapS := ents.map (·.1)
+      let initial : AMap := ents.map fun e => (e.1.1, e.2)
+      let sep := Req.ValuesHeap.sepB n m
+      "sep=" ++ (if sep then "1" else "0") ++ ";" ++ showKvs (sortKeys (Req.ValuesHeap.runA initial vops))
+    | _, _, _ => "bad-op"
+  | _ => "bad-op"
+
 def lanes : List (String × (List String → String)) := [
+  ("c19vals", laneVals),
   ("c19prog", laneProg),
   ("c19heap", laneHeap),
   ("c19rel", laneRel)
